@@ -80,14 +80,9 @@ class EarliestStartTimeObserver(FeatureObserver):
 
         # Earliest start times initialization
         # -------------------------------
-        squared_duration_matrix = dispatcher.instance.durations_matrix_array
-        self.earliest_start_times: NDArray[np.float32] = np.hstack(
-            (
-                np.zeros((squared_duration_matrix.shape[0], 1), dtype=float),
-                np.cumsum(squared_duration_matrix[:, :-1], axis=1),
-            )
+        self.earliest_start_times: NDArray[np.float32] = (
+            self._initial_earliest_start_times(dispatcher)
         )
-        self.earliest_start_times[np.isnan(squared_duration_matrix)] = np.nan
         # -------------------------------
 
         # Cache:
@@ -119,6 +114,28 @@ class EarliestStartTimeObserver(FeatureObserver):
         super().__init__(
             dispatcher, feature_types=feature_types, subscribe=subscribe
         )
+
+    @staticmethod
+    def _initial_earliest_start_times(
+        dispatcher: Dispatcher,
+    ) -> NDArray[np.float32]:
+        """Earliest start times when no operation has been scheduled."""
+        squared_duration_matrix = dispatcher.instance.durations_matrix_array
+        earliest_start_times = np.hstack(
+            (
+                np.zeros((squared_duration_matrix.shape[0], 1), dtype=float),
+                np.cumsum(squared_duration_matrix[:, :-1], axis=1),
+            )
+        )
+        earliest_start_times[np.isnan(squared_duration_matrix)] = np.nan
+        return earliest_start_times
+
+    def reset(self):
+        """Recomputes the initial earliest start times and the features."""
+        self.earliest_start_times = self._initial_earliest_start_times(
+            self.dispatcher
+        )
+        super().reset()
 
     def update(self, scheduled_operation: ScheduledOperation):
         """Recomputes the earliest start times and calls the
